@@ -96,29 +96,40 @@ def replay_inputs(ctx, binp, inputs, tag, extra_args=()):
     return vlib.harness_cases(ctx, binp, [(tag, ["-mode", "replay", "-in", path] + list(extra_args))])
 
 
-def minimise(ctx, binp, header, case_type, judge, inp, code, variants, size, rounds=14, cap=160,
-             tag="min", keep=None):
+def minimise(ctx, binp, header, case_type, judge, inp, code, variants, size, rounds=12, cap=120,
+             tag="min", keep=None, budget_s=30.0):
     """greedy delta debugging: `variants(inp)` lists one-step smaller inputs; each round replays
-    them on the real library, judges them in Coq and keeps the smallest with the same code.
-    Returns (input, json case) of the minimum reached (json case None if nothing was replayed)."""
+    them (smallest first, in chunks of `cap`) on the real library, judges them in Coq and moves to
+    the smallest one that still has the same code (and satisfies `keep`).  Stops when no variant
+    fails, after `rounds` rounds or `budget_s` seconds.  Returns (input, json case of the minimum
+    reached or None if no smaller failing input was found)."""
+    import time
+    t0 = time.time()
     best, best_case = inp, None
+    n = 0
     for rnd in range(rounds):
         cands = variants(best)
         cands.sort(key=size)
-        cands = cands[:cap]
-        if not cands:
+        moved = False
+        for off in range(0, min(len(cands), 4 * cap), cap):
+            if time.time() - t0 > budget_s:
+                return best, best_case
+            chunk = cands[off:off + cap]
+            n += 1
+            terms, jsons, err = replay_inputs(ctx, binp, chunk, "%s%d" % (tag, n))
+            if err or len(terms) != len(chunk):
+                return best, best_case
+            bad, _, err = ctx.judge_cases(header, case_type, judge, terms, shard=30, tag="%s%d" % (tag, n))
+            if err:
+                return best, best_case
+            hit = [i for i, c in bad if c == code and (keep is None or keep(jsons[i]))]
+            if hit:
+                k = min(hit, key=lambda i: size(chunk[i]))
+                best, best_case = chunk[k], jsons[k]
+                moved = True
+                break
+        if not moved:
             break
-        terms, jsons, err = replay_inputs(ctx, binp, cands, "%s%d" % (tag, rnd))
-        if err or len(terms) != len(cands):
-            break
-        bad, _, err = ctx.judge_cases(header, case_type, judge, terms, shard=40, tag="%s%d" % (tag, rnd))
-        if err:
-            break
-        hit = [i for i, c in bad if c == code and (keep is None or keep(jsons[i]))]
-        if not hit:
-            break
-        k = min(hit, key=lambda i: size(cands[i]))
-        best, best_case = cands[k], jsons[k]
     return best, best_case
 
 
